@@ -121,26 +121,39 @@ def gen_invocation(rng, idx):
         k = rng.randrange(len(pats))
         pats[k] = pats[k] + "\r" if rng.random() < 0.6 else pats[k][:1] + "\r" + pats[k][1:]
         pats = list(dict.fromkeys(pats))
-    via = rng.choice(["p", "f", "both"]) if len(pats) >= 2 else rng.choice(["p", "f"])
-    if cr:
-        via = "p"
-    if via in ("p", "both") and any(True for _ in [0] if pats[-1].startswith("-")):
-        via = "f"
+    # delivery: -p "a\nb\n..." and/or -f FILE. Constraints of the harness (not of the tool): the -p
+    # value must not look like an option (first pattern must not start with '-'); a pattern that
+    # contains a CR must go through -p (a CR at the end of a -f line is stripped by BufRead::lines);
+    # a pattern with NUL must go through -f (argv cannot carry NUL).
     nul = False
-    if via == "f" and rng.random() < 0.08:
-        pats = [p for p in pats] + ["a\x00b"]
-        pats = list(dict.fromkeys(pats))
-        nul = True
-    if via == "both":
-        k = rng.randint(1, len(pats) - 1)
-        f_pats, p_pats = pats[:k], pats[k:]
-    elif via == "p":
-        f_pats, p_pats = [], pats
+    cr_pats = [q for q in pats if "\r" in q]
+    if cr_pats and not any(not q.startswith("-") for q in pats):
+        pats = list(dict.fromkeys([q.replace("\r", "") for q in pats if q.replace("\r", "")]))
+        cr_pats, cr = [], False
+    if cr_pats:
+        first = rng.choice([q for q in pats if not q.startswith("-")])
+        rest = [q for q in pats if q is not first]
+        keep_p = [q for q in rest if "\r" in q or rng.random() < 0.5]
+        p_pats = [first] + keep_p
+        f_pats = [q for q in rest if q not in keep_p]
     else:
-        f_pats, p_pats = pats, []
-    if p_pats and p_pats[0].startswith("-"):
-        # argv value must not look like an option: move everything to the file
-        f_pats, p_pats = f_pats + p_pats, []
+        via = rng.choice(["p", "f", "both"]) if len(pats) >= 2 else rng.choice(["p", "f"])
+        if via == "f" and rng.random() < 0.08:
+            pats = list(dict.fromkeys(pats + ["a\x00b"]))
+            nul = True
+        if via == "both":
+            k = rng.randint(1, len(pats) - 1)
+            f_pats, p_pats = pats[:k], pats[k:]
+        elif via == "p":
+            f_pats, p_pats = [], list(pats)
+        else:
+            f_pats, p_pats = list(pats), []
+        if p_pats and p_pats[0].startswith("-"):
+            ok = [q for q in p_pats if not q.startswith("-")]
+            if ok:
+                p_pats = [ok[0]] + [q for q in p_pats if q is not ok[0]]
+            else:
+                f_pats, p_pats = f_pats + p_pats, []
     stdin_mode = rng.random() < 0.4
     nfiles = 0 if stdin_mode else rng.randint(1, 3)
     inputs = []
